@@ -1,5 +1,5 @@
 (* C05 correspondence: cases written by harness/cmd/c05 are evaluated here by vm_compute. *)
-From PF Require Export Base.Bytes Formats.Obj Check.Common.
+From PF Require Export Base.Bytes Formats.Obj Formats.ObjText Check.Common.
 Open Scope nat_scope.
 
 Definition rd := (list mesh * name)%type.
@@ -7,7 +7,12 @@ Inductive case :=
 (* stream 1: meshes -> obj.WriteMeshes (tokenised) -> obj.ReadMesh *)
 | CWrite (mtl : option name) (ms : list mesh) (impl_lines : res (list line)) (impl_read : res rd)
 (* stream 2: OBJ lines -> ReadMesh -> WriteMeshes (tokenised) -> ReadMesh *)
-| CFile (file : list line) (impl_read1 : res rd) (impl_lines : res (list line)) (impl_read2 : res rd).
+| CFile (file : list line) (impl_read1 : res rd) (impl_lines : res (list line)) (impl_read2 : res rd)
+(* the same with the raw BYTES of the input text: Formats/ObjText.v finds the statements; [ftab] = the number
+   tokens of the text with the float32 word Go parsed; [c] = the CFile case built from the harness tokenizer *)
+| CText (text : list N) (ftab : list (list N * N)) (c : case)
+(* the bytes WriteMeshes printed and the statements the harness tokenizer found in them *)
+| CTok (text : list N) (ftab : list (list N * N)) (tok_lines : list line) (c : case).
 
 (* Only what the property talks about is compared (a rewrite of the Go code that keeps it must stay quiet):
    a text by its validity, its direct meaning and its mtllib names - not line by line; a reader result by the
@@ -23,8 +28,12 @@ Definition lines_eqb (a b : list line) : bool :=
   && name_eqb (lib_names a) (lib_names b).
 Definition read := read_gen cfg_full.      (* /repo HEAD: f82d47b, 331d6c1, ca6f159 *)
 
+Definition text_lines (text : list N) (ftab : list (list N * N)) : list tline :=
+  lines_of_bytes (lookup_tok ftab) atoi itoa text.
+Definition tlines_eqb (a : list tline) (b : list line) : bool := list_eqb tline_eqb a (map TL b).
+
 (* model vs implementation *)
-Definition corr_ok (c : case) : bool :=
+Definition corr_base (c : case) : bool :=
   match c with
   | CWrite mtl ms il ir =>
       res_eqb lines_eqb (write mtl ms) il &&
@@ -38,11 +47,20 @@ Definition corr_ok (c : case) : bool :=
           match il with Ok ls => res_eqb rd_eqb (read ls) r2 | _ => true end
       | _ => true
       end
+  | _ => true
+  end.
+Definition corr_ok (c : case) : bool :=
+  match c with
+  | CText text ftab (CFile file r1 il r2) =>
+      tlines_eqb (text_lines text ftab) file && corr_base (CFile file r1 il r2)
+  | CText _ _ _ => false
+  | CTok text ftab ls c' => tlines_eqb (text_lines text ftab) ls && corr_base c'
+  | _ => corr_base c
   end.
 
 (* the property itself, evaluated on what the implementation returned: the written text is judged by the
    direct line semantics (file_groups), the read-back meshes by their observation; the reader model is not used *)
-Definition prop_ok (c : case) : bool :=
+Definition prop_base (c : case) : bool :=
   match c with
   | CWrite mtl ms il ir =>
       if wf_list ms then
@@ -67,4 +85,17 @@ Definition prop_ok (c : case) : bool :=
         | _, _, _ => false
         end
       else true
+  | _ => true
+  end.
+Definition prop_ok (c : case) : bool :=
+  match c with
+  | CText text ftab (CFile _ r1 il r2) =>
+      (* judged on the statements Coq's own text layer finds in the bytes, not on the harness tokenizer's *)
+      match good_prefix (text_lines text ftab) with
+      | (file, false) => prop_base (CFile file r1 il r2)
+      | _ => true
+      end
+  | CText _ _ _ => true
+  | CTok _ _ _ c' => prop_base c'
+  | _ => prop_base c
   end.
